@@ -33,20 +33,21 @@ def gen_trees(ctx, n, maxsize):
 
 
 def boundary_trees(r):
-    """lists whose first element is repeated once, d positions later: the path to the first copy has
-    d bits, so its encoding crosses the 'not longer than the node' bound exactly when d crosses
-    8*(L-2) for a node of classic length L; the repeated node is an atom or a small pair"""
+    """improper lists (x a1 ... a_{d-1} x . y): when the second x is serialized the first one is d
+    path bits away, so the encoding of the path crosses the 'shorter than the node' bound of
+    find_paths exactly when d crosses 8*(L-2) for an atom of classic length L; and proper lists
+    (x a1 ... a_{d-1} x) whose tail (x) equals the tail of the parse stack, d-1 bits away"""
     out = []
-    for alen in (3, 4, 5):
-        for d in sorted(set(range(8 * (alen - 1) - 3, 8 * (alen - 1) + 4)) | {7, 8, 9}):
+    for alen in (3, 4):
+        for d in sorted(set(range(8 * (alen - 1) - 2, 8 * (alen - 1) + 3)) | {7, 8, 9}):
             x = bytes(r.getrandbits(8) | 1 for _ in range(alen))
-            items = [x] + [bytes([1 + (i % 120)]) + (b"" if i < 120 else b"\x01") for i in range(d - 1)] + [x]
-            t = b""
+            items = [x] + [bytes([1 + i]) for i in range(d - 1)] + [x]
+            t = bytes([0x7e])
             for it in reversed(items):
                 t = (it, t)
             out.append(t)
-    for d in (7, 8, 9, 15, 16, 17, 23, 24, 25):
-        x = (bytes([0x81]), bytes([0x82]))        # classic length 5
+    for d in (8, 9, 10, 15, 16, 17, 18, 19):
+        x = bytes([0x81 + r.randrange(100)])       # (x) has classic length 4
         items = [x] + [bytes([1 + i]) for i in range(d - 1)] + [x]
         t = b""
         for it in reversed(items):
@@ -55,10 +56,26 @@ def boundary_trees(r):
     return out
 
 
+def tie_trees(r, n):
+    """a complete tree over two or three long atoms, followed by one of them (or by one of its
+    pairs): the repeated node is reachable through several different parents at equal depth, so
+    find_paths returns several shortest paths and find_path must pick the smallest"""
+    out = []
+    for _ in range(n):
+        pool = [bytes(r.getrandbits(8) for _ in range(r.choice([3, 4, 6]))) for _ in range(r.choice([2, 3]))]
+
+        def comp(k):
+            return r.choice(pool) if k == 0 else (comp(k - 1), comp(k - 1))
+        body = comp(r.choice([2, 3, 3, 4]))
+        tail = r.choice(pool) if r.random() < 0.6 else (r.choice(pool), r.choice(pool))
+        out.append((body, tail) if r.random() < 0.7 else ((body, tail), r.choice(pool)))
+    return out
+
+
 def run(ctx):
     r = ctx.rng
     ctx.rule = ("DAG-shared trees: random shapes over a small atom pool with sub-tree reuse probability 0-0.5, towers that repeat one "
-                "sub-tree at varying depths, gen.gen_tree with sharing, and lists that repeat an atom / small pair of classic length 4-6 at the distances around 8, 16, 24, 32 (where the path encoding grows by a byte and where the path-length bound of find_paths is crossed); atoms of 0-70 bytes incl. lengths at the 0x3f/0x40 prefix boundary. "
+                "sub-tree at varying depths, gen.gen_tree with sharing, and lists that repeat an atom / small pair of classic length 4-6 at the distances around 8, 16, 24, 32 (where the path encoding grows by a byte and where the path-length bound of find_paths is crossed), complete trees over 2-3 long atoms followed by one of them (several shortest paths: the lexicographic choice); atoms of 0-70 bytes incl. lengths at the 0x3f/0x40 prefix boundary. "
                 "non-trivial = distinct tree whose compressed form is shorter than its classic form (at least one back-reference)")
     ctx.explanation = ("Theorems (Props/C17.v): C17_emit_ok, C17_enc_canonical, C17_format_never_grows (format level, any emitter; also what C19 needs); "
                        "C17_serializer_emits_valid_paths, C17_roundtrip, C17_never_grows, C17_canonical, C17_idempotent (serializer level, premise: tree hash injective, "
@@ -72,7 +89,7 @@ def run(ctx):
         return
     # 1. model vs implementation, byte for byte (extracted SHA-256 is slow: keep these small)
     small = gen_trees(ctx, ctx.scale(500, 6000), 40)
-    small = [t for t in small if gen_br.tree_size(t) <= 120] + boundary_trees(r)
+    small = [t for t in small if gen_br.tree_size(t) <= 120] + boundary_trees(r) + tie_trees(r, ctx.scale(60, 600))
     cases = ["ser " + gen.tt(t) for t in small]
     corr_par.correspond(ctx, "br", cases, name="ser_br", nontrivial=lambda c, a, b: False)
     # 2. the property itself on the implementation: larger trees
